@@ -4,7 +4,7 @@
 #   demo passes before; patch applies; the 392 tests pass; demo fails after; then runs the named checks against the scratch copy.
 SD=$(realpath "$1"); shift
 W=/var/tmp/vmc-seed-$$
-git -C /repo worktree add -q --detach $W HEAD || exit 9
+git -C /repo worktree add -q --detach $W ${SEED_BASE:-HEAD} || exit 9
 cleanup() { git -C /repo worktree remove --force $W 2>/dev/null; rm -rf /var/tmp/vmc-ev-$$; }
 trap cleanup EXIT
 cd $W
